@@ -255,7 +255,7 @@ Proof.
     - assumption.
     - apply (nodupb_NoDup Z.eqb); [apply Z.eqb_eq | assumption].
     - apply (nodupb_NoDup String.eqb); [apply String.eqb_eq | assumption]. }
-  unfold deserialize, serialize.
+  unfold deserialize, deserialize_core, serialize.
   cbn [obj_arch obj_sections obj_symbols obj_relocations obj_images obj_entry].
   destruct entry as [e|];
     cbn [app jhas jget jlookup String.eqb Ascii.eqb Bool.eqb bind as_str as_list as_opt_int get_arch];
